@@ -872,6 +872,18 @@ func (e *Env) callSpec(t ECall) Val {
 			x = sel.X
 		}
 		unsup("spec: once_done needs a field path rooted at a pointer")
+	case "pool_array": // the byte array (by id) belongs to the buffer-pool subsystem
+		v := e.eval(t.Args[0])
+		_, arrays, _ := vc.poolComps(e.st)
+		return mathBool(fmt.Sprintf("(select %s %s)", arrays, refTerm(v)))
+	case "pool_buffer": // the *bytes.Buffer belongs to the buffer-pool subsystem
+		v := e.eval(t.Args[0])
+		bufs, _, _ := vc.poolComps(e.st)
+		return mathBool(fmt.Sprintf("(select %s %s)", bufs, v.T))
+	case "buf_arr": // identity of the backing array of a *bytes.Buffer
+		v := e.eval(t.Args[0])
+		c := vc.bufArr(e.st)
+		return mathInt(fmt.Sprintf("(select %s %s)", c, v.T))
 	case "store": // store(array, index, value) on SMT arrays
 		a, i, v := e.eval(t.Args[0]), e.eval(t.Args[1]), e.eval(t.Args[2])
 		return Val{T: fmt.Sprintf("(store %s %s %s)", a.T, i.T, v.T), Sort: a.sort(vc)}
@@ -1018,6 +1030,16 @@ func (e *Env) modTarget(x Expr, out map[string][]string) {
 			}
 		case "anything":
 			out["*"] = append(out["*"], "true")
+			return
+		case "pool_state":
+			// the pool subsystem may grow (by fresh buffers / arrays only) and rewrite its own arrays
+			vc.poolComps(e.st)
+			ek := elemComp(types.Typ[types.Uint8])
+			vc.comp(e.st, ek, vc.elemCompSort(types.Typ[types.Uint8]), types.Typ[types.Uint8])
+			out[poolBufsComp] = append(out[poolBufsComp], "POOL")
+			out[poolArraysComp] = append(out[poolArraysComp], "POOL")
+			out[bufArrComp] = append(out[bufArrComp], "ALL")
+			out[ek] = append(out[ek], "POOLED")
 			return
 		case "once_done":
 			// the ghost flag of a sync.Once at a field path
